@@ -922,10 +922,64 @@ def fam_sched(P, n, tier):
     return out
 
 
+def fam_units(P, n, tier):
+    """C11: both producers active under write back-pressure; every payload is self-delimiting and the two
+    producers use disjoint alphabets (command: <UPPER>, OK, ERROR, AT... list lines; events: {lower}), so
+    the accepted byte stream can be parsed into units without any help from the implementation."""
+    out = []
+    for i in range(n):
+        sc = Scn('un%d' % i, cap=P.choice(CAPS), buf_size=P.choice([48, 64, 65, 96]), ubuf_size=P.choice([-1, -1, 24, 40]),
+                 fill=P.choice([0, 0xAA]), mutex=False)
+        rd = Cmd('+R', r=True)
+        ls = Cmd('#L', run=True)
+        other = Cmd('+Q', run=True, r=True, w=True, t=True)
+        sc.add_group([rd, ls, other])
+        evs = [Cmd('e%d' % j, r=True, t=True) for j in range(P.randint(1, 3))]
+        for e in evs:
+            sc.add_extra(e)
+        seqno = [0]
+
+        def payload(lo, hi, open_, close, alpha):
+            seqno[0] += 1
+            body = '%d' % seqno[0] + ''.join(P.choice(alpha) for _ in range(P.randint(lo, hi)))
+            return (open_ + body + close).encode()
+        usz = sc.usz()
+        # command side: read handler emitting 1..4 units per line, several lines
+        script = []
+        for k in range(12):
+            for j in range(P.randint(0, 3)):
+                script.append(Res(RC['DATA_NEXT'], payload(0, min(20, sc.asz() - 8), '<', '>', 'ABCDEFGHIJKLM')))
+            script.append(Res(P.choice([RC['DATA_OK'], RC['DATA_OK'], RC['OK'], RC['ERROR']]), payload(0, min(20, sc.asz() - 8), '<', '>', 'ABCDEFGHIJKLM')))
+        sc.script(1, rd.ci, 0, script)
+        sc.script(2, ls.ci, 0, [Res(RC['LIST'])] * 6)
+        sc.script(2, other.ci, 0, [Res(RC['OK'])] * 6)
+        for e in evs:
+            es = []
+            for k in range(40):
+                if P.chance(0.25):
+                    es.append(Res(RC['DATA_NEXT'], payload(0, min(12, usz - 8), '{', '}', 'nopqrstuvwxyz')))
+                es.append(Res(P.choice([RC['DATA_OK'], RC['DATA_OK'], RC['DATA_OK'], RC['OK']]), payload(0, min(12, usz - 8), '{', '}', 'nopqrstuvwxyz')))
+            sc.script(1, e.ci, 0, es)
+            sc.script(3, e.ci, 0, [Res(RC['DATA_OK'], payload(0, min(12, usz - 8), '{', '}', 'nopqrstuvwxyz')) for _ in range(20)])
+        sc.rd = P.bits(6000, P.choice([0.5, 0.8, 1.0]))
+        sc.wr = P.bits(6000, P.choice([0.3, 0.5, 0.7, 0.9]))
+        for j in range(P.randint(6, 30 if tier == 'quick' else 60)):
+            roll = P.random()
+            if roll < 0.35:
+                sc.op('t %d %d' % (P.choice(evs).ci, P.choice([T_READ, T_READ, T_TEST])))
+            elif roll < 0.7:
+                sc.service(P.choice([1, 1, 2, 3, 5, 9, 17]))
+            else:
+                sc.feed(P.choice(['AT+R?', 'AT+R?', 'AT#L', 'AT#L', 'AT+Q', 'AT', 'AT+NOPE']) + P.choice(['\n', '\r\n']))
+        sc.drain(20000)
+        out.append(sc)
+    return out
+
+
 FAMILIES = {
     'mixed': fam_mixed, 'names': fam_names, 'num': fam_num, 'buf': fam_buf, 'cap': fam_cap, 'rc': fam_rc,
     'events': fam_events, 'hold': fam_hold, 'mutex': fam_mutex, 'lines': fam_lines, 'rt': fam_rt,
-    'wo': fam_wo, 'list': fam_list, 'bytes': fam_bytes, 'sched': fam_sched,
+    'wo': fam_wo, 'list': fam_list, 'bytes': fam_bytes, 'sched': fam_sched, 'units': fam_units,
 }
 
 
